@@ -15,7 +15,7 @@ import os
 import re
 import tempfile
 
-from core import Result, exc_name, hexs, parallel_map
+from core import history_probe, Result, exc_name, hexs, parallel_map
 
 ALPHA = "ctCTWHSwhsnaBRP0123456789"          # the FR3D label alphabet of the statement
 LW_NAMES = [o + a + b for o in "ct" for a in "WHS" for b in "WHS"]
@@ -712,6 +712,7 @@ def run(ctx):
         if not is_ascii(x):
             res.count("nonascii:listing")
     reall = parallel_map(real_listing, [x for _, x in ascii_texts])
+    history_probe(ctx, res, real_listing, [x for _, x in ascii_texts], "parse_fr3d_output")
     modell = D.ask([["lab.listing", enc(x)] for _, x in ascii_texts])
     nlines = 0
     for (tag, x), rv, mv in zip(ascii_texts, reall, modell):
@@ -756,6 +757,7 @@ def run(ctx):
         doc, model_no = gen_dssr(rng, names, hard=True)
         cases.append(("generated", sspec, doc, model_no))
     reald = parallel_map(real_dssr, [(s, d, m) for _, s, d, m in cases])
+    history_probe(ctx, res, real_dssr, [(s, d, m) for _, s, d, m in cases], "parse_dssr_output", describe=lambda c: {"doc": c[1], "model": c[2]})
     reqs = []
     for _, s, d, m in cases:
         reqs.append(dssr_requests(structure_residues(s), d, m))
